@@ -57,6 +57,7 @@ fn coq_expr(e: &E, ps: &[V]) -> Option<String> {
         E::Reduce(i, l, s) => format!("(EReduce {} {} {})", coq_expr(i, ps)?, coq_expr(l, ps)?, coq_expr(s, ps)?),
     })
 }
+#[allow(dead_code)]
 fn has_mod(e: &E) -> bool {
     match e {
         E::Bin("%", _, _) => true,
@@ -65,6 +66,31 @@ fn has_mod(e: &E) -> bool {
         E::List(es) => es.iter().any(has_mod),
         E::Reduce(a, b, c) => has_mod(a) || has_mod(b) || has_mod(c),
         _ => false,
+    }
+}
+/// the proper, variable-free, non-leaf subexpressions of e (their values may contain strings
+/// built at run time, e.g. by string concatenation, which the temporal oracle must know too)
+fn subexprs<'a>(e: &'a E, top: bool, out: &mut Vec<&'a E>) {
+    match e {
+        E::P(_) | E::Var(_) => {}
+        E::List(es) => {
+            if !top { out.push(e); }
+            es.iter().for_each(|x| subexprs(x, false, out));
+        }
+        E::Un(_, x) => {
+            if !top { out.push(e); }
+            subexprs(x, false, out);
+        }
+        E::Bin(_, l, r) => {
+            if !top { out.push(e); }
+            subexprs(l, false, out);
+            subexprs(r, false, out);
+        }
+        E::Reduce(i, l, _) => {
+            if !top { out.push(e); }
+            subexprs(i, false, out);
+            subexprs(l, false, out);
+        }
     }
 }
 fn top(e: &E) -> String {
@@ -92,6 +118,7 @@ fn gen_expr(r: &mut Rng, depth: u32, np: usize, in_reduce: bool) -> E {
     }
 }
 
+#[allow(dead_code)]
 fn is_float_involved(vs: &[V]) -> bool {
     fn f(v: &V) -> bool {
         match v {
@@ -139,7 +166,7 @@ fn main() {
     let mut r = Rng::new(a.seed);
     let eng = Engine::new();
     let mut orc = Oracle::new();
-    let mut cw = CaseWriter::new(&a.out, "Corr.C23", 400);
+    let mut cw = CaseWriter::new(&a.out, "Corr.C23", 200);
     let mut rep = Report::new(&a.out);
     let mut hist = BTreeMap::<String, u64>::new();
     let mut distinct = BTreeSet::<String>::new();
@@ -163,6 +190,18 @@ fn main() {
          vec![V::Int(0), V::List(vec![V::Int(i64::MAX), V::Int(1), V::Int(-5)])]),
         (E::Bin("<=", Box::new(E::P(0)), Box::new(E::P(1))), vec![V::String("20200101".into()), V::String("2020-01-01".into())]),
         (E::Bin("=", Box::new(E::P(0)), Box::new(E::P(1))), vec![V::List(vec![V::Null, V::Int(1)]), V::List(vec![V::Null, V::Int(2)])]),
+        // seed 31 / index 2748: x + x overflows to a float, then float % int (was outside the model)
+        (E::Bin("<=", Box::new(E::Bin("%", Box::new(E::Bin("+", Box::new(E::P(0)), Box::new(E::P(0)))), Box::new(E::P(0)))), Box::new(E::P(0))), vec![V::Int(5228675572754606838)]),
+        // a temporal string built at run time: "12" + "00" is the local time 12:00
+        (E::Bin(">=", Box::new(E::Bin("+", Box::new(E::P(0)), Box::new(E::P(1)))), Box::new(E::P(2))), vec![V::String("12".into()), V::String("00".into()), V::String("12:00".into())]),
+        (E::Bin("%", Box::new(E::P(0)), Box::new(E::P(1))), vec![V::Float(-5.5), V::Int(2)]),
+        (E::Bin("%", Box::new(E::P(0)), Box::new(E::P(1))), vec![V::Float(-4.0), V::Float(2.0)]),
+        (E::Bin("%", Box::new(E::P(0)), Box::new(E::P(1))), vec![V::Int(1), V::Float(f64::from_bits(3))]),
+        (E::Bin("%", Box::new(E::P(0)), Box::new(E::P(1))), vec![V::Float(1e308), V::Int(3)]),
+        (E::Bin("%", Box::new(E::P(0)), Box::new(E::P(1))), vec![V::Int(7), V::Float(f64::INFINITY)]),
+        (E::Bin("%", Box::new(E::P(0)), Box::new(E::P(1))), vec![V::Float(f64::INFINITY), V::Int(7)]),
+        (E::Bin("%", Box::new(E::P(0)), Box::new(E::P(1))), vec![V::Int(7), V::Float(-0.0)]),
+        (E::Bin("%", Box::new(E::P(0)), Box::new(E::P(1))), vec![V::Int(i64::MIN), V::Int(-1)]),
     ];
     let n_expr = a.n;
     for idx in 0..n_expr {
@@ -199,11 +238,6 @@ fn main() {
             };
             (e, ps)
         };
-        // `%` with a float operand is outside the model (no fmod in PrimFloat)
-        if has_mod(&e) && is_float_involved(&ps) {
-            *hist.entry("skipped:mod-float".into()).or_insert(0) += 1;
-            continue;
-        }
         let Some(ce) = coq_expr(&e, &ps) else { continue };
         let q = format!("RETURN {} AS r", cypher(&e));
         let params: Vec<(String, V)> = ps.iter().enumerate().map(|(i, v)| (format!("p{i}"), v.clone())).collect();
@@ -226,7 +260,17 @@ fn main() {
             *hist.entry("skipped:result-outside-model".into()).or_insert(0) += 1;
             continue;
         };
-        let refs: Vec<&V> = ps.iter().collect();
+        // strings the comparison operators may see: those of the parameters and those of every
+        // intermediate value (evaluated by the engine itself)
+        let mut inter: Vec<V> = vec![];
+        let mut subs = vec![];
+        subexprs(&e, true, &mut subs);
+        for se in subs {
+            if let Ok(row) = eng.row1(&format!("RETURN {} AS r", cypher(se)), &pr) {
+                inter.push(row[0].clone());
+            }
+        }
+        let refs: Vec<&V> = ps.iter().chain(inter.iter()).collect();
         let table = orc.coq_table(&eng, &refs);
         *hist.entry(format!("expr:{}", top(&e))).or_insert(0) += 1;
         *hist.entry(format!("result:{}", kind(&res))).or_insert(0) += 1;
